@@ -85,6 +85,29 @@ theorem warp_same_package (st : FSt) (t : String) (hself : equalFold st.clz t = 
     · rfl
   simp only [e1, hf]
 
+/-- not imported by name and not in the current package, but visible through an on-demand import (`import p.*;` is
+    recorded as `p`): the class `p.Name` of the FIRST such import that is a known class wins over a class of that name in any
+    other package (the repair 002f493) -/
+theorem warp_on_demand (st : FSt) (t c : String) (hself : equalFold st.clz t = false)
+    (hi : st.imports.find? (fun i => i.endsWith ("." ++ pureOf t)) = none)
+    (hs : st.clzs.find? (fun c => c == st.pkg ++ "." ++ pureOf t) = none)
+    (h : st.imports.findSome? (fun imp => st.clzs.find? (fun c => c == imp ++ "." ++ pureOf t)) = some c) :
+    warp st t = (c, "same package") := by
+  simp only [warp, hself, Bool.false_eq_true, if_false, Gen.JavaFull.importMatches, Gen.JavaFull.samePackageMatches,
+    Gen.JavaFull.onDemandMatches]
+  generalize pureOf t = p at hi hs h
+  have e1 : (if (p != "") = true then st.imports.find? (fun imp => imp.endsWith ("." ++ p)) else none) = none := by
+    split
+    · exact hi
+    · rfl
+  simp only [e1, hs, h]
+
+-- non-vacuity (a test, evaluated by the compiler): `Helper` in package com.shop, seen through `import com.shop.user.*;`, with
+-- another Helper in com.shop.order that comes first in the list of known classes
+#guard warp { pkg := "com.shop", clz := "Order", imports := ["java.util.List", "com.shop.user"],
+              clzs := ["com.shop.order.Helper", "com.shop.user.Helper", "com.shop.Order"] } "Helper" ==
+    ("com.shop.user.Helper", "same package")
+
 /-- a call on a receiver whose type resolves: recorded against the simple name and the package of the full type -/
 theorem call_resolved (st : FSt) (x callee ctx : String) (args : List String) (sl sc el : Int) (full : String)
     (hw : (warp st (parseTargetType st x)).1 = full) (hfull : full ≠ "")
